@@ -5,11 +5,13 @@ from a grammar of import forms and other statements x joiner (newline / `; `) x 
 LF/CRLF, plus one module per mapped name (with and without alias).  The oracle works on ASTs.
 """
 import ast
+import copy
 import importlib
 import itertools
 
 from d42.migration.migrate_v1_to_v2 import mapping, rewrite_imports
 
+from ..common import safe_repr
 from ..runner import Acc, parallel, parallel_fresh
 
 SIMPLE = [
@@ -49,6 +51,9 @@ COMPOUND = [
 NSTMT = {"quick": 3, "thorough": 4}
 
 
+MAPPING0 = copy.deepcopy(mapping)     # the table as shipped, before any rewrite has run
+
+
 def check_targets():
     bad = []
     n = 0
@@ -68,8 +73,8 @@ def expected_bindings(node):
     """Multiset (sorted list) of (module, name, local name) the replacement must bind."""
     out = []
     for a in node.names:
-        if node.module in mapping and a.name in mapping[node.module]:
-            nm, nn = mapping[node.module][a.name]
+        if node.module in MAPPING0 and a.name in MAPPING0[node.module]:
+            nm, nn = MAPPING0[node.module][a.name]
             out.append((nm, nn, a.asname or a.name))
         else:
             out.append((node.module, a.name, a.asname or a.name))
@@ -211,6 +216,18 @@ def worker(shard, nshards, tier, seed, mode="shard"):
                            "crlf": nl == "\r\n", "final_newline": trail})
         if i % 20011 == 0:
             acc.sample({"forms": ids, "joiner": joiner, "source": src[:200]})
+    # the mapping is shared by every call: after all these rewrites every target must still be
+    # importable and bind the same local name (a rewrite must not add to or edit the table)
+    if mapping != MAPPING0:
+        acc.violation("C19|mapping-table-changed-by-rewrites",
+                      {"after_rewrites": True, "added_or_changed": safe_repr(
+                          {m: {k: v for k, v in names.items() if MAPPING0.get(m, {}).get(k) != v}
+                           for m, names in mapping.items() if names != MAPPING0.get(m)}, 400)})
+    n, bad = check_targets()
+    acc.count("mapping_targets_rechecked_after_rewrites", n)
+    for b in bad:
+        acc.violation(f"C19|mapping-target-not-importable-after-rewrites|{b[2]}.{b[3]}",
+                      {"target": list(b), "after_rewrites": True})
     return acc
 
 
